@@ -170,6 +170,10 @@ pub fn exercise(img: &[u8], desc: &str, idx: u64, rep: &mut Reporter, cover: &mu
                     // each step is one monitored call
                     let base = alloc::reset_peak();
                     dev.reset_counters();
+                    if let Err(p) = guarded(|| it.size_hint()) {
+                        m.rep.violation("C08", &format!("panic/raw-size_hint/{}", panic_sig(&p)), idx, &format!("{}: size_hint of the raw iterator of pc{} panicked after {} items: {}", desc, pi, yielded, p));
+                        break;
+                    }
                     let step = guarded(|| it.next());
                     let peak = alloc::peak().saturating_sub(base);
                     let c = dev.counters();
@@ -199,8 +203,24 @@ pub fn exercise(img: &[u8], desc: &str, idx: u64, rep: &mut Reporter, cover: &mu
                             cover.hit_num("error_class", crate::rng::hash_str(&err_class(&e)) >> 12);
                             break;
                         }
-                        Ok(Some(Ok(_))) => {
+                        Ok(Some(Ok(vals))) => {
                             yielded += 1;
+                            if yielded <= 4 {
+                                // the public conversion helpers on values that came out of untrusted bytes
+                                let conv = guarded(|| {
+                                    let mut n = 0usize;
+                                    for (v, rec) in vals.iter().zip(pc.prototype.iter()) {
+                                        let _ = (v.to_f64(&rec.data_type).is_ok(), v.to_i64(&rec.data_type).is_ok(), v.to_u8(&rec.data_type).is_ok());
+                                        n += format!("{}", v).len();
+                                    }
+                                    n
+                                });
+                                m.rep.stat("value_conversions_monitored", 1);
+                                if let Err(p) = conv {
+                                    m.rep.violation("C08", &format!("panic/value-conversion/{}", panic_sig(&p)), idx, &format!("{}: converting / formatting a value of pc{} panicked: {}", desc, pi, p));
+                                    break;
+                                }
+                            }
                             if yielded > pc.records {
                                 m.rep.violation("C09", "yield-more-than-recordCount/raw", idx, &format!("{}: raw iterator yielded {} items, recordCount is {}", desc, yielded, pc.records));
                                 break;
@@ -244,6 +264,10 @@ pub fn exercise(img: &[u8], desc: &str, idx: u64, rep: &mut Reporter, cover: &mu
                     loop {
                         let base = alloc::reset_peak();
                         dev.reset_counters();
+                        if let Err(p) = guarded(|| it.size_hint()) {
+                            m.rep.violation("C08", &format!("panic/simple-size_hint/{}", panic_sig(&p)), idx, &format!("{}: size_hint of the simple iterator of pc{} panicked after {} items: {}", desc, pi, yielded, p));
+                            break;
+                        }
                         let step = guarded(|| it.next());
                         let peak = alloc::peak().saturating_sub(base);
                         let c = dev.counters();
